@@ -40,6 +40,7 @@ structure HsD where
   gated : Option Nat := none     -- conn held inside `_onOpen`
   late : Bool := false           -- the listener holds the next conn until Close
   stuck : Bool := false          -- `wait` found Stop not returning
+  busy : List Nat := []          -- conns with a request handler held by the harness: their close job is queued behind it
 
 namespace HsD
 open HttpStop
@@ -50,7 +51,9 @@ def kind (d : HsD) : HttpStop.Kind := if d.blk then .blk else .nb
 def cands (d : HsD) : List HttpStop.Act :=
   let n := d.s.conns.length
   let connActs := (List.range n).flatMap fun i =>
-    let always : List HttpStop.Act := [.conn i .runJob, .conn i .readerExit, .conn i .delFail]
+    -- the close job is a job of the conn's queue (ExecQ, C05): it runs after the handler that is running there
+    let always : List HttpStop.Act :=
+      (if d.busy.contains i then [] else [.conn i .runJob]) ++ [.conn i .readerExit, .conn i .delFail]
     if d.gated == some i then always
     else always ++ [.conn i .insert, .conn i .userOpen, .conn i .coreOpen, .conn i (.coreReg true), .conn i .spawn]
   connActs ++ (if d.s.sweeps == 0 || (d.s.graceful && HttpStop.online d.s > 0 && d.s.conns.any (fun c => c.inMap && !c.closed))
@@ -83,6 +86,8 @@ def op (d : HsD) (ws : List String) : Option (HsD × String) :=
     else fin (acts d [.accept d.kind])
   | ["O", "release"] => fin { d with gated := none }
   | ["O", "peerclose", i] => fin (acts d [.conn i.toNat! .close])
+  | ["O", "req", i] => fin { d with busy := i.toNat! :: d.busy }
+  | ["O", "relreq"] => fin { d with busy := [] }
   | ["O", "late"] => fin { d with late := true }
   | "O" :: "stop" :: _ | "O" :: "shutdown" :: _ =>
     let gr := ws[1]? == some "shutdown"
@@ -113,6 +118,8 @@ structure DS where
   real : Bool
   lm : Option LmD := none
   hs : Option HsD := none
+  ioblock : Bool := false
+  attempts : Nat := 0
 
 def gated (d : DS) : Act → Bool
   | .store c => d.heldOpen.contains c
@@ -228,6 +235,12 @@ partial def loop (h : IO.FS.Stream) (d : DS) : IO Unit := do
     let d := settle d (fuelOf d)
     IO.println (obs d)
     loop h d
+  if d.ioblock && ws.head? != some "C" then
+    -- Stop racing a busy read task of the IO pool: Stop returns (the pool's Stop unblocks the hand-over: TPool, C19)
+    match ws with
+    | "O" :: "run" :: _ => IO.println s!"R ret=nil attempts={d.attempts}"; loop h d
+    | _ => IO.println "R -"; loop h d
+  else
   if let (some hd, false) := (d.hs, ws.head? == some "C") then
     match HsD.op hd ws with
     | some (hd', out) => IO.println out; loop h { d with hs := some hd' }
@@ -243,7 +256,8 @@ partial def loop (h : IO.FS.Stream) (d : DS) : IO Unit := do
     IO.println "ok"
     let lm := if rest.contains "lmux" then some ({ s := Lmux.init (((Drv.field rest "maxa").map String.toNat!).getD 0) } : LmD) else none
     let hs := if rest.contains "hsim" then some ({ blk := Drv.field rest "io" == some "blk" } : HsD) else none
-    loop h { s := init, heldOpen := [], heldClose := false, real := rest.contains "real", lm := lm, hs := hs }
+    loop h { s := init, heldOpen := [], heldClose := false, real := rest.contains "real", lm := lm, hs := hs,
+             ioblock := rest.contains "ioblock", attempts := ((Drv.field rest "attempts").map String.toNat!).getD 0 }
   | ["O", "new"] =>
     let c := d.s.conns.length
     fin { (applyActs d [.new .transfer, .open c]) with heldOpen := c :: d.heldOpen }
